@@ -6,28 +6,42 @@ WIDTHS = {"u8": 8, "u16": 16, "u32": 32, "u64": 64}
 PRIM = {"u8": "uint8", "u16": "uint16", "u32": "uint32", "u64": "uint64"}
 
 
+# declared order of the choices of the sparse sets pset<w>: gaps and out-of-order bit indices (SBE allows both)
+SPARSE = {"u8": [7, 2, 5, 0], "u16": [15, 3, 8, 0, 9, 12], "u32": [31, 0, 17, 5, 30, 16, 1],
+          "u64": [63, 0, 32, 31, 47, 5, 33, 62]}
+
+
+def declared(setname):
+    """bit indices of the choices of a harness set in declaration order"""
+    k = {8: "u8", 16: "u16", 32: "u32", 64: "u64"}[int(setname.lstrip("ps").lstrip("et"))]
+    return SPARSE[k] if setname.startswith("p") else list(range(WIDTHS[k]))
+
+
 def sets_schema():
     t = ""
     for k, w in WIDTHS.items():
-        t += '<set name="set%d" encodingType="%s">\n' % (w, PRIM[k])
-        for i in range(w):
-            t += '  <choice name="c%d">%d</choice>\n' % (i, i)
-        t += "</set>\n"
+        for name in ("set%d" % w, "pset%d" % w):
+            t += '<set name="%s" encodingType="%s">\n' % (name, PRIM[k])
+            for i in declared(name):
+                t += '  <choice name="c%d">%d</choice>\n' % (i, i)
+            t += "</set>\n"
     return schema_xml("hs_sets", t)
 
 
 def table_inc():
     s = ""
     for k, w in WIDTHS.items():
-        S = "hs_sets::types::set%d" % w
-        T = "hs_sets::schema::types::set%d" % w
-        s += "struct ent_set%d { bool (*get)(%s); bool (*get_tag)(%s); void (*set)(%s&, bool); void (*set_tag)(%s&, bool); };\n" % (w, S, S, S, S)
-        s += "static const ent_set%d tab_set%d[] = {\n" % (w, w)
-        for i in range(w):
-            s += ("  { [](%s s){ return s.c%d(); }, [](%s s){ return sbepp::get_by_tag<%s::c%d>(s); },"
-                  " [](%s& s, bool b){ s.c%d(b); }, [](%s& s, bool b){ sbepp::set_by_tag<%s::c%d>(s, b); } },\n"
-                  % (S, i, S, T, i, S, i, S, T, i))
-        s += "};\n"
+        for name in ("set%d" % w, "pset%d" % w):
+            S = "hs_sets::types::%s" % name
+            T = "hs_sets::schema::types::%s" % name
+            s += ("struct ent_%s { unsigned idx; bool (*get)(%s); bool (*get_tag)(%s); void (*set)(%s&, bool); "
+                  "void (*set_tag)(%s&, bool); };\n" % (name, S, S, S, S))
+            s += "static const ent_%s tab_%s[] = {\n" % (name, name)
+            for i in declared(name):
+                s += ("  { %d, [](%s s){ return s.c%d(); }, [](%s s){ return sbepp::get_by_tag<%s::c%d>(s); },"
+                      " [](%s& s, bool b){ s.c%d(b); }, [](%s& s, bool b){ sbepp::set_by_tag<%s::c%d>(s, b); } },\n"
+                      % (i, S, i, S, T, i, S, i, S, T, i))
+            s += "};\n"
     return s
 
 
@@ -70,6 +84,8 @@ def gen_cases(rng, tier):
         for v in ps:
             for n in range(w):
                 gen.append((k, v, n, rng.below(2)))
+            for j in range(len(SPARSE[k])):
+                gen.append((k, v, j, rng.below(2), "p"))
     return raw, gen
 
 
@@ -77,7 +93,7 @@ def run(res, replay=None):
     rng = SplitMix64(res.seed)
     res.rule = ("raw bitset_base<T>: exhaustive (value,index,bool) for 8 bit; every 16-bit value (all indices in "
                 "thorough); walking-bit/complement/random patterns x every index x both bools for 32/64 bit; "
-                "generated set classes: named accessor, get_by_tag/set_by_tag, visit, ==/!= on the same patterns; "
+                "generated set classes (dense sets with every bit declared in order, and sparse sets with gaps and out-of-order bit indices): named accessor, get_by_tag/set_by_tag, visit (tags) and visit_set (names), ==/!= on the same patterns; "
                 "constant evaluation: static_assert block with model-computed expectations. A case is non-trivial "
                 "when distinct by (type,value,index,bool).")
     ok_proof = proof_step(res)
@@ -118,18 +134,25 @@ def run(res, replay=None):
                           {"raw": [list(c)], "expected": s, "observed_model": e})
             break
 
+    def decl_of(c):
+        return SPARSE[c[0]] if len(c) == 5 else list(range(WIDTHS[c[0]]))
+
     gen_lines_model = []
-    for (k, v, n, b) in gen:
-        gen_lines_model.append("c15 cur %s %d %d %d" % (k, v, n, b))
-        gen_lines_model.append("c15v %s %d %s" % (k, v, " ".join(str(i) for i in range(WIDTHS[k]))))
+    for c in gen:
+        k, v, n, b = c[:4]
+        gen_lines_model.append("c15 cur %s %d %d %d" % (k, v, decl_of(c)[n], b))
+        gen_lines_model.append("c15v %s %d %s" % (k, v, " ".join(str(i) for i in decl_of(c))))
     gm = model.run(gen_lines_model)
     gen_exp = []
-    for i, (k, v, n, b) in enumerate(gen):
+    for i, c in enumerate(gen):
+        k, v, n, b = c[:4]
         g_s = dict(x.split("=") for x in gm[2 * i].split())
         vis = gm[2 * i + 1].split("=")[1]
         sv = g_s["set"]
-        gen_exp.append("get=%s bytag=%s set=%s setbytag=%s visit=%s order=1 eq=1%d ne=%d" % (
-            g_s["get"], g_s["get"], sv, sv, vis, 1 if sv == str(v) else 0, 0 if sv == str(v) else 1))
+        # visit (tags) and visit_set (names): every declared choice once, in declaration order, with its own bit
+        vs = ",".join("c%d:%s" % (idx, bit) for idx, bit in zip(decl_of(c), vis))
+        gen_exp.append("get=%s bytag=%s set=%s setbytag=%s visit=%s order=1 vs=%s eq=1%d ne=%d" % (
+            g_s["get"], g_s["get"], sv, sv, vis, vs, 1 if sv == str(v) else 0, 0 if sv == str(v) else 1))
 
     for cxx, std, flags in configs:
         try:
@@ -140,7 +163,7 @@ def run(res, replay=None):
             res.violation("harness-build:%s:%s" % (cxx, std), "C15 harness no longer builds against /repo",
                           {"no_failing_input": True, "correspondence": "c15_harness.cpp", "error": str(e)[-3000:]})
             continue
-        rc, got, err = run_lines(exe, raw_lines + ["c15g %s %d %d %d" % c for c in gen])
+        rc, got, err = run_lines(exe, raw_lines + ["c15g %s%s %d %d %d" % (("p" if len(c) == 5 else ""), c[0], c[1], c[2], c[3]) for c in gen])
         if rc != 0 and len(got) < len(raw) + len(gen):
             # sanitizer abort: locate the case
             idx = len(got)
@@ -167,21 +190,23 @@ def run(res, replay=None):
             if g != gen_exp[i]:
                 found = True
                 res.violation("gen:%s:idx%s" % (c[0], "ge31" if c[2] >= 31 else "lt31"),
-                              "generated set%d bits=%d choice c%d: expected %s, got %s (%s -std=%s)"
-                              % (WIDTHS[c[0]], c[1], c[2], gen_exp[i], g, cxx, std),
+                              "generated %sset%d bits=%d choice c%d: expected %s, got %s (%s -std=%s)"
+                              % ("p" if len(c) == 5 else "", WIDTHS[c[0]], c[1], decl_of(c)[c[2]], gen_exp[i], g, cxx, std),
                               {"gen": [list(c)], "expected": gen_exp[i], "observed": g,
                                "config": [cxx, std, list(flags)]})
     res.sample({"case": raw_lines[12345 % len(raw_lines)], "expected": spec[12345 % len(raw_lines)]})
     if gen:
-        res.sample({"case": "c15g %s %d %d %d" % gen[-1], "expected": gen_exp[-1]})
+        res.sample({"case": "c15g " + " ".join(str(x) for x in gen[-1]), "expected": gen_exp[-1]})
 
     # constant evaluation: static_assert block
     sa = ["#include <hs_sets/hs_sets.hpp>"]
     pick = [gen[rng.below(len(gen))] for _ in range(400 if res.tier == "thorough" else 150)] if gen else []
-    for (k, v, n, b) in pick:
-        i = gen.index((k, v, n, b))
-        d = dict(x.split("=") for x in gen_exp[i].split())
-        S = "hs_sets::types::set%d" % WIDTHS[k]
+    for c in pick:
+        k, v, n, b = c[:4]
+        i = gen.index(c)
+        d = dict(x.split("=", 1) for x in gen_exp[i].split())
+        S = "hs_sets::types::%sset%d" % ("p" if len(c) == 5 else "", WIDTHS[k])
+        n = decl_of(c)[n]
         lit = "%dULL" % v
         sa.append("static_assert(%s{static_cast<%s>(%s)}.c%d() == %s, \"get %s %d %d\");"
                   % (S, "std::uint%d_t" % WIDTHS[k], lit, n, "true" if d["get"] == "1" else "false", k, v, n))
